@@ -10,6 +10,7 @@ import (
 	"encoding/json"
 	"fmt"
 	"os"
+	"reflect"
 	"sync"
 )
 
@@ -145,3 +146,12 @@ func vPanics(f func()) (panicked bool) {
 	return false
 }
 func vClass(s string) {}
+
+// structural equality (engine: a solver term; native twin: reflect.DeepEqual)
+func vDeepEqual(a, b interface{}) bool { return reflect.DeepEqual(a, b) }
+func vWeakEqual(a, b interface{}) bool { return true }
+func vBytesEqual(a, b []byte) bool     { return string(a) == string(b) }
+
+// vEnvInt reads an integer from the environment (debugging aid: restrict a harness).
+func vEnvInt(name string, def int) int { return def }
+func vWireEqual(a, b interface{}, wire []byte) bool { return true }
